@@ -5,5 +5,5 @@ CONSTANTS
   MaxDepth = 0
 SPECIFICATION MCSpec
 VIEW MCView
-INVARIANTS ExitActionEnterOrder OncePerTransition StartStopShape EnterExitBalanced EnteredIffCurrent HandlerBeforeRoutes FirstMatchingRoute SubMachineFirstUntilTerminated ReentrantCallsRejected StateSane NoViolation
+INVARIANTS ExitActionEnterOrder OncePerTransition StartStopShape EnterExitBalanced EnteredIffCurrent HandlerBeforeRoutes FirstMatchingRoute SubMachineFirstUntilTerminated ReentrantCallsRejected StateSane DefinedActionsRun NoViolation
 CHECK_DEADLOCK FALSE
